@@ -41,6 +41,7 @@ func GenInter(t *rapid.T) InterCase {
 func ExecInter(c InterCase) (res core.Result) {
 	defer func() {
 		if r := recover(); r != nil {
+			core.HarnessPanic(r)
 			res = core.Result{Viol: core.Violate("C17/"+c.Plugin+"/panic", "handler panicked: %v", r)}
 		}
 	}()
